@@ -148,12 +148,17 @@ var slowHits int32
 
 func patience(d time.Duration) time.Duration {
 	if atomic.LoadInt32(&slowHits) >= 4 {
-		return d / 20
+		return d / 60
 	}
 	return d
 }
 
+var warming atomic.Bool // during the warm-up histories nothing is waited for
+
 func waitFor(d time.Duration, cond func() bool) bool {
+	if warming.Load() {
+		return cond()
+	}
 	d = patience(d)
 	ok := waitFor0(d, cond)
 	if !ok {
@@ -478,10 +483,8 @@ func execInChild(input string) (string, bool) {
 	ctx, cancel := context.WithTimeout(context.Background(), 3*time.Minute)
 	defer cancel()
 	cmd := exec.CommandContext(ctx, exe, "-area", "c16", "-replay", rp, "-out", filepath.Join(dir, "out"))
-	cmd.Env = append(os.Environ(), "C16_CHILD=1")
-	if atomic.LoadInt32(&slowHits) >= 4 {
-		cmd.Env = append(cmd.Env, "C16_IMPATIENT=1")
-	}
+	// children only exist once the tree has shown that it leaves things behind: they wait briefly
+	cmd.Env = append(os.Environ(), "C16_CHILD=1", "C16_IMPATIENT=1")
 	if cmd.Run() != nil {
 		return "", false
 	}
@@ -507,9 +510,20 @@ func (a Area) Exec(input string) string {
 		if os.Getenv("C16_IMPATIENT") != "" {
 			atomic.StoreInt32(&slowHits, 4)
 		}
+		base0 := goroutineIDs()
+		warming.Store(true)
 		execLine("rr p0r1 A0o G0 S0 R0")
 		execLine("pool p0r0 N0o G0 S0 K0")
-		time.Sleep(20 * time.Millisecond)
+		warming.Store(false)
+		// a tree that leaks already during the warm-up contaminates this process from the start
+		if !waitFor(leakTimeout, func() bool { return len(leaked(base0)) == 0 }) {
+			if os.Getenv("C16_DEBUG") != "" {
+				for _, g := range leaked(base0) {
+					fmt.Fprintln(os.Stderr, "after warm-up:", g.stack)
+				}
+			}
+			contaminated.Store(true)
+		}
 	})
 	return execLine(input)
 }
@@ -765,7 +779,7 @@ func execLine(input string) string {
 	_ = e.lis.Close()
 	var left []gor
 	waitFor(leakTimeout, func() bool { left = leaked(base); return len(left) == 0 })
-	if len(left) > 0 || tearOK != "ok" {
+	if (len(left) > 0 || tearOK != "ok") && !warming.Load() {
 		contaminated.Store(true)
 	}
 	if len(left) > 0 {
